@@ -258,15 +258,16 @@ def rule_transformers(ctx: Ctx, repo: Repo) -> None:
 def run(ctx: Ctx, repo: Repo, tier: str) -> None:
     ctx.trust("libcst's ApplyTypeAnnotationsVisitor: only adds annotations/imports and honours overwrite_existing_annotations (its own tests; not analysed here)",
               "pathlib.Path.write_text replaces the file's content; inspect.getfile(module) is the module's source file")
-    rule_binding(ctx, repo)
-    rule_write(ctx, repo)
-    rule_transformers(ctx, repo)
+    ctx.attempt(rule_binding, ctx, repo)
+    ctx.attempt(rule_write, ctx, repo)
+    ctx.attempt(rule_transformers, ctx, repo)
     # stage conditions of C15 decided in full elsewhere: libcst matches stub functions to source functions by the shape
     # of the parameter list, so the stub's signatures must mirror the real ones (C12); the imports moved or removed
     # under --pep_563 are exactly the stub's new ones, the source's own imports are left alone (C16)
     from . import c12 as _c12, c16 as _c16
     ctx.note("R-C12.5 and R-C16.2/R-C16.4 below are the stage rules of C12 and C16, run here as necessary conditions of C15")
-    _c12.rule_signature(ctx, repo, tier)
-    _c16.rule_cli(ctx, repo)
-    _c16.rule_identity(ctx, repo)
-    _c16.rule_split(ctx, repo)
+    ctx.attempt(_c12.rule_signature, ctx, repo, tier)
+    ctx.attempt(_c16.rule_cli, ctx, repo)
+    ctx.attempt(_c16.rule_identity, ctx, repo)
+    ctx.attempt(_c16.rule_split, ctx, repo)
+    ctx.settle()
